@@ -1,5 +1,6 @@
 (** C05 — pinned statements (MQTT 3.1.1 part).  Only [Theorem .. exact ..]. *)
 From Rumqtt Require Import Codec.Wire Codec.V4 Codec.WireProofs Codec.FramingProofs Codec.V4TotalProofs Codec.V4Proofs.
+From Rumqtt Require Import Codec.V5Props Codec.V5 Codec.V5TotalProofs Codec.V5Proofs.
 
 Theorem c05_read_total : forall fl bs max t, read fl bs max <> RPanic t.
 Proof. exact read_total. Qed.
@@ -59,3 +60,55 @@ Theorem c05_decodable_example :
   exists bs, write Client 100 ex_connect5 = Ok (bs, 14) /\ read Client bs 100 = Packet ex_connect5 []
              /\ read Broker bs 100 = Malformed InvalidProtocolLevel [].
 Proof. exact asym_connect_level5. Qed.
+
+Theorem c05_read_total_v5 : forall fl bs max t, read5 fl bs max <> RPanic t.
+Proof. exact read_total_v5. Qed.
+
+Theorem c05_read_frame_packet_v5 : forall fl bs max p rest, read5 fl bs max = Packet p rest ->
+  exists h frame, parse_fixed_header bs = Ok h /\ bs = frame ++ rest /\
+                  len frame = frame_length h /\ remaining_len h <= eff_max max /\ 2 <= len frame.
+Proof. exact read_frame_packet_v5. Qed.
+
+Theorem c05_read_frame_malformed_v5 : forall fl bs max e rest, read5 fl bs max = Malformed e rest ->
+  (rest = bs /\ (e = MalformedRemainingLength \/ e = PayloadSizeLimitExceeded)) \/
+  exists h frame, parse_fixed_header bs = Ok h /\ bs = frame ++ rest /\
+                  len frame = frame_length h /\ remaining_len h <= eff_max max.
+Proof. exact read_frame_malformed_v5. Qed.
+
+Theorem c05_read_frame_over_max_v5 : forall fl bs mx h, parse_fixed_header bs = Ok h -> mx < remaining_len h ->
+  read5 fl bs (Some mx) = Malformed PayloadSizeLimitExceeded bs.
+Proof. exact read_frame_over_max_v5. Qed.
+
+Theorem c05_read_frame_need_more_v5 : forall fl bs max k, read5 fl bs max = NeedMore k ->
+  (parse_fixed_header bs = Err (InsufficientBytes k) /\ 1 <= k /\ len bs <= 4) \/
+  exists h, parse_fixed_header bs = Ok h /\ remaining_len h <= eff_max max /\ len bs < frame_length h /\
+            1 <= k /\ k <= frame_length h - len bs.
+Proof. exact read_frame_need_more_v5. Qed.
+
+Theorem c05_header_remaining_bound : forall s h, parse_fixed_header s = Ok h -> remaining_len h <= MAX_REMAINING.
+Proof. exact pfh_remaining_bound. Qed.
+
+Theorem c05_prefix_stable_packet_v5 : forall fl bs max p rest more,
+  read5 fl bs max = Packet p rest -> read5 fl (bs ++ more) max = Packet p (rest ++ more).
+Proof. exact prefix_stable_packet_v5. Qed.
+
+Theorem c05_prefix_stable_malformed_v5 : forall fl bs max e rest more,
+  read5 fl bs max = Malformed e rest -> read5 fl (bs ++ more) max = Malformed e (rest ++ more).
+Proof. exact prefix_stable_malformed_v5. Qed.
+
+Theorem c05_chunking_independent_v5 : forall fl max chunks,
+  run_stream5 fl max chunks = run_stream5 fl max [concat chunks].
+Proof. exact chunking_independent_v5. Qed.
+
+Theorem c05_read_no_out_of_fuel_v5 : forall fl bs max rest, read5 fl bs max <> Malformed OutOfFuel rest.
+Proof. exact read_no_out_of_fuel_v5. Qed.
+
+Theorem c05_read_frame_v5_refuted : exists bs h,
+  parse_fixed_header bs = Ok h /\ frame_length h <= len bs /\
+  read5_gen unfixed Client bs None = NeedMore 1 /\ read5_gen unfixed Broker bs (Some 100) = NeedMore 1 /\
+  read5 Client bs None = Malformed MalformedPacket [] /\ read5 Broker bs (Some 100) = Malformed MalformedPacket [].
+Proof. exact read_frame_v5_refuted. Qed.
+
+Theorem c05_disconnect_reason_only_v5 :
+  read5 Client [224; 1; 4] None = Malformed MalformedPacket [] /\ read5 Broker [224; 1; 4] (Some 100) = Malformed MalformedPacket [].
+Proof. exact disconnect5_reason_only. Qed.
